@@ -162,10 +162,10 @@ var controls = []control{
 
 // controlsAll lists the controls whose Old text must be replaced everywhere in the file (consistent renames).
 var controlsAll = map[string]bool{
-	"benign: rename payload slice in PackTable":  true,
-	"benign: rename the change counter":          true,
-	"benign: rename the epilogue local":          true,
-	"benign: rename the counter field":           true,
-	"benign: rename the accumulator":             true,
-	"benign: rename the sorted slice":            true,
+	"benign: rename payload slice in PackTable": true,
+	"benign: rename the change counter":         true,
+	"benign: rename the epilogue local":         true,
+	"benign: rename the counter field":          true,
+	"benign: rename the accumulator":            true,
+	"benign: rename the sorted slice":           true,
 }
